@@ -529,7 +529,7 @@ pub fn build(tier: &str) -> SimCheck {
         scenarios,
         oracle: Box::new(oracle),
         bound: 1,
-        limits: Limits { max_wall_s: if thorough { 2400.0 } else { 55.0 }, ..Default::default() },
+        limits: Limits { max_wall_s: if thorough { 2400.0 } else { 150.0 }, ..Default::default() },
         rule: "scenario = shard shape (replicas 1..3 with/without primary, primary only) x load-balancing mode x history of depth 1-2 (thorough 3) over 16 events on a replica (down, crashed, stopped = accepts but never answers the startup until it runs again, black-holed = connect swallowed until the kernel's 127 s timeout, recover, health check failing / hanging / answering late after an idle gap, breaking or hanging mid-statement, admin BAN / UNBAN, one second passing, ban expiry, admin-ban expiry, a RELOAD of an unrelated general setting), each followed by a transaction with role any/replica/primary between two pooler-state probes, then recovery and final transactions; the same with a second client holding a transaction open on a replica throughout (its pool has a connection in use and none idle); every candidate order (enumerated shuffle) with 1 deviation".into(),
         assumptions: vec![
             "ban membership is read from the pooler (get_bans) and cross-checked against observed failures; expiry is computed from the virtual wall clock".into(),
